@@ -11,6 +11,7 @@ import (
 
 	"cffvc/vc"
 
+	"golang.org/x/tools/go/packages"
 	"golang.org/x/tools/go/ssa"
 )
 
@@ -639,6 +640,13 @@ func (g *gpass) wrapperExit(s *vc.State, f *vc.Frame, kind string, results []vc.
 	}
 	B("noUserFunctionOnCaller", vc.BoolLit(userOnCaller == 0))
 
+	// C15: identifiers in hoisted user expressions resolve outside the wrapper literal
+	capOK, capWhy := g.noCapture(w)
+	if !capOK {
+		wc.notes = append(wc.notes, capWhy)
+	}
+	B("userExpressionsResolveOutsideTheWrapper", vc.BoolLit(capOK))
+
 	// scheduler params come from hoisted expressions or are absent
 	B("schedParamsOK", vc.BoolLit(g.schedParamsOK(wc)))
 
@@ -819,7 +827,11 @@ func (g *gpass) wrapperLoopBack(s *vc.State, f *vc.Frame, lp *vc.Loop) {
 							emitterOK = s.ValueEq(skArgs[0], s.Load(&np))
 						}
 					}
-					if ev := freeVal(s, f, "err"); ev != nil {
+					resName := "err"
+					if rs := wc.w.fn.Signature.Results(); rs.Len() == 1 && rs.At(0).Name() != "" {
+						resName = rs.At(0).Name()
+					}
+					if ev := freeVal(s, f, resName); ev != nil {
 						errOK = s.ValueEq(skArgs[2], ev)
 					} else {
 						errOK = vc.False
@@ -1187,4 +1199,64 @@ func (wc *wrapCtx) hoistedPtrName(addr ssa.Value) string {
 		}
 	}
 	return ""
+}
+
+// noCapture: in every hoisted assignment _L_C := <user expression> of the
+// wrapper literal, every identifier of the right-hand side resolves to an
+// object declared outside the wrapper literal (or inside the expression
+// itself): otherwise a name introduced by generated code captured it.
+func (g *gpass) noCapture(w *wrapper) (bool, string) {
+	lit, ok := w.fn.Syntax().(*ast.FuncLit)
+	if !ok {
+		return false, "wrapper has no function literal syntax"
+	}
+	pkg := w.fn.Pkg
+	for p := w.fn; pkg == nil && p != nil; p = p.Parent() {
+		pkg = p.Pkg
+	}
+	info := g.typesInfo(pkg.Pkg.Path())
+	if info == nil {
+		return false, "no type information for " + pkg.Pkg.Path()
+	}
+	for _, st := range lit.Body.List {
+		as, ok := st.(*ast.AssignStmt)
+		if !ok || as.Tok != token.DEFINE || len(as.Lhs) != 1 || len(as.Rhs) != 1 {
+			continue
+		}
+		id, ok := as.Lhs[0].(*ast.Ident)
+		if !ok || !hoistedName.MatchString(id.Name) {
+			continue
+		}
+		rhs := as.Rhs[0]
+		bad := ""
+		ast.Inspect(rhs, func(n ast.Node) bool {
+			u, ok := n.(*ast.Ident)
+			if !ok {
+				return true
+			}
+			obj := info.Uses[u]
+			if obj == nil || !obj.Pos().IsValid() {
+				return true
+			}
+			// declared inside the wrapper but outside this expression: a generated binder
+			if obj.Pos() >= lit.Pos() && obj.Pos() < lit.End() && !(obj.Pos() >= rhs.Pos() && obj.Pos() < rhs.End()) {
+				bad = fmt.Sprintf("identifier %s in hoisted expression %s resolves to a name declared by generated code", u.Name, id.Name)
+			}
+			return true
+		})
+		if bad != "" {
+			return false, bad
+		}
+	}
+	return true, ""
+}
+
+func (g *gpass) typesInfo(path string) *types.Info {
+	if g.infoByPath == nil {
+		g.infoByPath = map[string]*types.Info{}
+		packages.Visit(g.lr.Pkgs, nil, func(p *packages.Package) {
+			g.infoByPath[p.PkgPath] = p.TypesInfo
+		})
+	}
+	return g.infoByPath[path]
 }
